@@ -218,7 +218,9 @@ func (s *serverStream[RQ, RS]) close(err error) (closeErr error) {
 		}
 	}
 
+	s.peerCloseMu.Lock()
 	s.peerCloseErr = freighter.ErrStreamClosed
+	s.peerCloseMu.Unlock()
 
 	// Tell the client we're closing the connection. Make sure to include a write
 	// deadline here in-case the client is stuck.
